@@ -151,7 +151,10 @@ func (obj Object) CompletionAtPos(ctx context.Context, pos hcl.Pos) []lang.Candi
 	leftBytes := recoverLeftBytes(fileBytes, pos, func(offset int, r rune) bool {
 		return isObjectItemTerminatingRune(r) && offset > recoveryPos.Byte
 	})
-	trimmedBytes := bytes.TrimRight(leftBytes, " \t")
+	trimmedBytes := bytes.TrimRightFunc(leftBytes, func(r rune) bool {
+		// any whitespace except for the terminating newline
+		return r != '\n' && unicode.IsSpace(r)
+	})
 
 	if len(trimmedBytes) == 0 {
 		// no terminating character was found which indicates
@@ -182,6 +185,10 @@ func (obj Object) CompletionAtPos(ctx context.Context, pos hcl.Pos) []lang.Candi
 	trimmedBytes = bytes.TrimLeftFunc(trimmedBytes, func(r rune) bool {
 		return isObjectItemTerminatingRune(r) || unicode.IsSpace(r)
 	})
+
+	if len(trimmedBytes) == 0 {
+		return []lang.Candidate{}
+	}
 
 	// parenthesis implies interpolated attribute name
 	if trimmedBytes[len(trimmedBytes)-1] == '(' && obj.cons.AllowInterpolatedKeys {
